@@ -14,7 +14,9 @@ type vobj struct {
 	tags [][]byte // non-unique multi-key secondary index (0..2 keys)
 	pfx  []byte   // LPM index key data
 	plen uint16   // LPM prefix length
-	val  uint64   // payload
+	pfx2 []byte   // optional second LPM key
+	pln2 uint16
+	val  uint64 // payload
 }
 
 func (o *vobj) TableHeader() []string { return nil }
@@ -134,7 +136,12 @@ var vLPMIndex = LPMIndex[*vobj]{
 	FromObject: func(o *vobj) iter.Seq2[[]byte, PrefixLen] {
 		return func(yield func([]byte, PrefixLen) bool) {
 			if o.pfx != nil {
-				yield(o.pfx, o.plen)
+				if !yield(o.pfx, o.plen) {
+					return
+				}
+			}
+			if o.pfx2 != nil {
+				yield(o.pfx2, o.pln2)
 			}
 		}
 	},
